@@ -1202,7 +1202,12 @@ func c13Run(c *core.Ctx) *core.Result {
 		}))
 	}
 	old := syscall.Umask(p.Umask)
-	cerr := fs.Copy(context.Background(), srcDir, p.Src, dstDir, p.Dst, opts...)
+	// the destination root as a caller may spell it
+	dstRootArg := dstDir + core.Pick(core.NewRand(core.Mix(c.Seed, "C13-dstroot-spelling", c.Index)), []string{"", "", "", "/", "/.", "//", "/./"})
+	if dstRootArg != dstDir {
+		r.Count("destination_roots_spelled_unclean", 1)
+	}
+	cerr := fs.Copy(context.Background(), srcDir, p.Src, dstRootArg, p.Dst, opts...)
 	syscall.Umask(old)
 	r.Count("copies", 1)
 
